@@ -106,15 +106,9 @@ fn judge_reported(c: &Cell, out: &mut Out) {
       out.violations.push(("exceeds-reconnect-ivl-max".into(), format!("{}: reported interval {} ms > RECONNECT_IVL_MAX {} ms ({:?})", cls, b, max, r)));
     }
   }
-  // the time between two retry announcements is at least the announced interval
-  for (k, g) in out.gaps_ms.iter().enumerate() {
-    if let Some(d) = r.get(k) {
-      if *g + 5 < *d {
-        out.violations.push(("retried-sooner-than-announced".into(), format!("{}: {} ms between retry announcements {} and {}, announced interval {} ms", cls, g, k, k + 1, d)));
-        break;
-      }
-    }
-  }
+  // (the time between two announcements is recorded in the evidence but not judged: the stamps are
+  // taken when this task receives the monitor event, and a late receipt under machine load would
+  // shrink the next gap)
 }
 
 async fn run_cell(c: Cell) -> Out {
@@ -217,9 +211,12 @@ async fn run_cell(c: Cell) -> Out {
       let stop = std::sync::Arc::new(std::sync::atomic::AtomicBool::new(false));
       let stop2 = stop.clone();
       l.set_nonblocking(true).ok();
+      // with a ceiling configured, watch enough attempts for an unbounded back-off to show
+      let capped = matches!(c.max, Some(m) if m > 0 && m >= c.base);
+      let want_accepts: usize = if capped { 8 } else { 4 };
       let th = std::thread::spawn(move || {
         let mut n = 0;
-        while !stop2.load(std::sync::atomic::Ordering::SeqCst) && n < 4 {
+        while !stop2.load(std::sync::atomic::Ordering::SeqCst) && n < want_accepts {
           match l.accept() {
             Ok((s, _)) => {
               let _ = txa.send(Instant::now());
@@ -234,9 +231,9 @@ async fn run_cell(c: Cell) -> Out {
         drop(l);
       });
       let _ = x.connect(&uri).await;
-      let t_end = Instant::now() + Duration::from_millis(8 * base.max(100) + 6000);
+      let t_end = Instant::now() + Duration::from_millis(8 * base.max(100) + 6000 + if capped { 8 * (c.max.unwrap_or(0) as u64 + 300) } else { 0 });
       let mut stamps = vec![];
-      while Instant::now() < t_end && stamps.len() < 4 {
+      while Instant::now() < t_end && stamps.len() < want_accepts {
         if let Ok(t) = rxa.try_recv() {
           stamps.push(t);
         } else {
@@ -251,8 +248,22 @@ async fn run_cell(c: Cell) -> Out {
       if stamps.len() < 2 {
         out.violations.push(("connection-reset-not-retried".into(), format!("{} connection attempts reached the resetting listener in {} ms", stamps.len(), 8 * base.max(100) + 6000)));
       }
-      if let Some(g) = out.accept_gaps_ms.iter().find(|g| **g + 5 < c.base as u64) {
-        out.violations.push(("reconnected-faster-than-reconnect-ivl".into(), format!("{} ms between two connection attempts, RECONNECT_IVL {} ms (gaps {:?})", g, c.base, out.accept_gaps_ms)));
+      if capped {
+        // the time between two attempts is the scheduled delay plus detection latency (maintenance
+        // tick 100 ms, scheduling): far below max + 1.5 s unless the delay itself outgrew the ceiling
+        let max = c.max.unwrap_or(0) as u64;
+        if let Some(g) = out.accept_gaps_ms.iter().find(|g| **g > max + 1500) {
+          out.violations.push(("retry-delay-exceeds-reconnect-ivl-max".into(), format!("{} ms between two connection attempts with RECONNECT_IVL={} RECONNECT_IVL_MAX={} (gaps {:?})", g, c.base, max, out.accept_gaps_ms)));
+        }
+        if stamps.len() < want_accepts {
+          out.violations.push(("retry-delay-exceeds-reconnect-ivl-max".into(), format!("only {} of {} connection attempts arrived in time with RECONNECT_IVL={} RECONNECT_IVL_MAX={} (gaps {:?})", stamps.len(), want_accepts, c.base, max, out.accept_gaps_ms)));
+        }
+      }
+      // a retry loop that ignores RECONNECT_IVL dials back-to-back; accept stamps taken by a polling
+      // thread can be late under load, so only several gaps far below the interval count
+      let hot = out.accept_gaps_ms.iter().filter(|g| **g * 4 < c.base as u64).count();
+      if hot >= 2 {
+        out.violations.push(("reconnected-faster-than-reconnect-ivl".into(), format!("{} of {} gaps between connection attempts are below a quarter of RECONNECT_IVL {} ms (gaps {:?})", hot, out.accept_gaps_ms.len(), c.base, out.accept_gaps_ms)));
       }
       let y = mk(&pctx, ty, &c).await;
       if !bind_retry(&y, &uri).await {
@@ -310,7 +321,7 @@ fn cells(tier: Tier) -> Vec<Cell> {
 
 pub fn retry_sub(tier: Tier) -> Sub {
   let mut sub = Sub::new("reconnect-real-clock", "E4");
-  sub.rule = "case = one real-time loopback-tcp execution per (scenario kind, RECONNECT_IVL, RECONNECT_IVL_MAX, socket pair) cell; non-trivial = at least one retry was observed or traffic resumed; oracle: reported ConnectRetried intervals start at RECONNECT_IVL, at most double, never exceed RECONNECT_IVL_MAX (when it is >= RECONNECT_IVL); two announcements / two connection attempts are never closer together than the announced interval / RECONNECT_IVL (-5 ms); after the peer is reachable again a freshly sent message arrives within 10 s + 4 x the largest interval".into();
+  sub.rule = "case = one real-time loopback-tcp execution per (scenario kind, RECONNECT_IVL, RECONNECT_IVL_MAX, socket pair) cell; non-trivial = at least one retry was observed or traffic resumed; oracle: reported ConnectRetried intervals start at RECONNECT_IVL, at most double, never exceed RECONNECT_IVL_MAX (when it is >= RECONNECT_IVL); connection attempts against a resetting peer are not back-to-back (gaps not below RECONNECT_IVL/4) and, with a ceiling configured, never further apart than RECONNECT_IVL_MAX + 1.5 s over 8 attempts; after the peer is reachable again a freshly sent message arrives within 10 s + 4 x the largest interval".into();
   let list = cells(tier);
   sub.bounds = json!({"cells": list.len(), "note": "single real-time execution per cell; OS scheduling is not enumerated"});
   sub.notes.push("E4 cells are real-clock executions: the matrix is enumerated completely, the schedules inside a cell are not".into());
